@@ -21,18 +21,24 @@
 (***************************************************************************)
 EXTENDS RA_SqlSem, Json
 
-CONSTANTS MaxXfers, MaxMid, Emit
+CONSTANTS MaxXfers, MaxMid, Sources, Emit
 
-VARIABLES ei, ef, fk, hist, rel, final
-vars == <<ei, ef, fk, hist, rel, final>>
+VARIABLES ei, ef, fk, src, hist, rel, prev, final
+vars == <<ei, ef, fk, src, hist, rel, prev, final>>
 
 Engines == {"sql", "it1", "it2"}
 FRows == <<[a |-> 0, c |-> 1], [a |-> 1, c |-> 0], [a |-> 1, c |-> 1]>>
-Env == [I |-> << <<>> >>, F |-> FRows, U |-> <<[a |-> 1]>>]
+SRows == <<[a |-> 0, b |-> 0], [a |-> 1, b |-> 1]>>
+Env == [I |-> << <<>> >>, F |-> FRows, U |-> <<[a |-> 1]>>, S |-> SRows]
 
 Wrap(leaf) == IF KindOf(leaf.eng) = "sql" THEN PlainSel(leaf) ELSE leaf
 LeafI(e) == Wrap(Leaf("I", e, {}, 1, 1))
 LeafF(e) == Wrap(Leaf("F", e, {"a", "c"}, 3, 3))
+\* the source is the join identity I or an ordinary two-row leaf S {a, b} (src): with S the join is a real
+\* one, most engine layouts are refused, and require_preferred_engine has something to forbid
+LeafS(e) == Wrap(Leaf("S", e, {"a", "b"}, 2, 2))
+SrcRows == IF src = "I" THEN << <<>> >> ELSE SRows
+SrcCols == IF src = "I" THEN {} ELSE {"a", "b"}
 \* the second kind of fixed operand: a relation that is a join identity only by virtue of a zero-column
 \* projection of a one-row leaf (finding F30)
 UnitU(e) == ApplyUnary(Proj({}), Wrap(Leaf("U", e, {"a"}, 1, 1)), DefaultOpts)
@@ -40,51 +46,75 @@ Fixed == IF fk = "F" THEN LeafF(ef) ELSE UnitU(ef)
 FixedRows == IF fk = "F" THEN FRows ELSE << <<>> >>
 FixedCols == IF fk = "F" THEN {"a", "c"} ELSE {}
 
-Init == /\ ei \in Engines /\ ef \in Engines /\ fk \in {"F", "U"}
-        /\ hist = <<>> /\ rel = LeafI(ei) /\ final = FALSE
+Init == /\ ei \in Engines /\ ef \in Engines /\ fk \in {"F", "U"} /\ src \in Sources
+        /\ hist = <<>> /\ rel = (IF src = "I" THEN LeafI(ei) ELSE LeafS(ei)) /\ prev = rel /\ final = FALSE
 
 Transfer == /\ ~final
             /\ Cardinality({i \in DOMAIN hist : hist[i].f = "xfer"}) < MaxXfers
             /\ \E dest \in Engines \ {Eng(rel)} :
                  LET r == TransferTo(rel, dest) IN
                  /\ ~IsErr(r)
-                 /\ rel' = r /\ hist' = Append(hist, [f |-> "xfer", dest |-> dest])
-            /\ UNCHANGED <<ei, ef, fk, final>>
+                 /\ rel' = r /\ prev' = rel /\ hist' = Append(hist, [f |-> "xfer", dest |-> dest])
+            /\ UNCHANGED <<ei, ef, fk, src, final>>
 
 \* operations that keep a join identity a join identity (one row, no columns): they put operation
 \* nodes and a locked materialization between the identity leaf, the transfers and the final join
 Mid == /\ ~final /\ Cardinality({i \in DOMAIN hist : hist[i].f # "xfer"}) < MaxMid
-       /\ \E c \in {[f |-> "un", op |-> Dedup], [f |-> "un", op |-> Slice(0, 1)], [f |-> "mat", name |-> "m1"]} :
+       /\ \E c \in {[f |-> "un", op |-> Dedup], [f |-> "mat", name |-> "m1"]}
+                     \cup (IF src = "I" THEN {[f |-> "un", op |-> Slice(0, 1)]} ELSE {}) :
             LET r == IF c.f = "mat" THEN Materialize(rel, c.name) ELSE ApplyUnary(c.op, rel, DefaultOpts) IN
             /\ ~IsErr(r) /\ r # rel
-            /\ rel' = r /\ hist' = Append(hist, c)
-       /\ UNCHANGED <<ei, ef, fk, final>>
+            /\ rel' = r /\ prev' = rel /\ hist' = Append(hist, c)
+       /\ UNCHANGED <<ei, ef, fk, src, final>>
 
-JoinCalls == {[f |-> "pjoin", lhs |-> side, pref |-> p, backtrack |-> bt, transfer |-> tr] :
-                 side \in BOOLEAN, p \in Engines \cup {"none"}, bt \in BOOLEAN, tr \in BOOLEAN}
+JoinCalls == {[f |-> "pjoin", lhs |-> side, pref |-> p, backtrack |-> bt, transfer |-> tr, require |-> rq] :
+                 side \in BOOLEAN, p \in Engines \cup {"none"}, bt \in BOOLEAN, tr \in BOOLEAN,
+                 rq \in (IF src = "S" THEN BOOLEAN ELSE {FALSE})}
 JoinResult(c, r) ==
     ApplyUnary(IF c.lhs THEN PJoinL(Fixed, PLit(TRUE)) ELSE PJoin(Fixed, PLit(TRUE)), r,
-               Opts(c.pref, c.backtrack, c.transfer, FALSE))
+               Opts(c.pref, c.backtrack, c.transfer, c.require))
 
 FinalJoin == /\ ~final
              /\ \E c \in JoinCalls :
                   LET r == JoinResult(c, rel) IN
                   /\ ~IsErr(r)
-                  /\ rel' = r /\ hist' = Append(hist, c)
+                  /\ rel' = r /\ prev' = rel /\ hist' = Append(hist, c)
              /\ final' = TRUE
-             /\ UNCHANGED <<ei, ef, fk>>
+             /\ UNCHANGED <<ei, ef, fk, src>>
 
 Next == Transfer \/ Mid \/ FinalJoin
 Spec == Init /\ [][Next]_vars
 
 WF == WellFormed(rel)
-Content == final => /\ Cols(rel) = FixedCols
-                    /\ SameBag(Den(rel, Env), FixedRows)
+CommonKeys == {c \in SrcCols \cap FixedCols : IsKey(c)}
+WantRows == IF src = "I" THEN FixedRows ELSE JoinRows(SrcRows, FixedRows, CommonKeys, PLit(TRUE))
+Content == final => /\ Cols(rel) = SrcCols \cup FixedCols
+                    /\ (BagDet(rel, Env) /\ BagDet(rel, RevEnv(Env))) => SameBag(Den(rel, Env), WantRows)
+
+\* C03: with require_preferred_engine (and no transfer) the call adds no operation outside the preferred engine
+RECURSIVE OpsOutside(_, _)
+OpsOutside(t, e) ==
+    CASE t.k = "leaf" -> 0
+      [] t.k = "un"   -> OpsOutside(t.t, e) + (IF Eng(t) # e THEN 1 ELSE 0)
+      [] t.k = "bin"  -> OpsOutside(t.l, e) + OpsOutside(t.r, e) + (IF Eng(t) # e THEN 1 ELSE 0)
+      [] t.k \in {"xfer", "mat"} -> OpsOutside(t.t, e)
+      [] t.k = "sel"  -> OpsOutside(t.skip, e) + (IF Eng(t) # e THEN Len(SelOps(t)) ELSE 0)
+LastCall == hist[Len(hist)]
+Honoured == LET c == LastCall IN
+            (c.require /\ ~c.transfer /\ c.pref # "none") => OpsOutside(rel, c.pref) <= OpsOutside(prev, c.pref) + OpsOutside(Fixed, c.pref)
+\* open finding F31: a partial join requested with an explicit preferred engine that is NOT the fixed
+\* operand's engine: backtracking re-enters apply() with the partial join's own default (the fixed
+\* operand's engine) and puts the join there, although another engine was required
+KF31Match == LET c == LastCall IN c.require /\ ~c.transfer /\ c.pref # "none" /\ c.pref # ef
+RequireHonoured == final => (Honoured \/ KF31Match)
+\* companion (expected to FAIL): the excluded class still violates
+KF31Gone == final => (KF31Match => Honoured)
+KF31Hit == final /\ KF31Match /\ ~Honoured
 \* requests the model refuses in the current state (with the error class)
 Refused == IF final THEN {} ELSE {[call |-> c, err |-> JoinResult(c, rel).err] : c \in {x \in JoinCalls : IsErr(JoinResult(x, rel))}}
 
 EmitState ==
-    Emit => PrintT(<<"ST", ToJson([ei |-> ei, ef |-> ef, fk |-> fk, hist |-> hist, tree |-> rel, final |-> final,
-                                   rows |-> IF final THEN FixedRows ELSE << <<>> >>, refused |-> Refused,
+    Emit => PrintT(<<"ST", ToJson([ei |-> ei, ef |-> ef, fk |-> fk, src |-> src, kf31 |-> KF31Hit, hist |-> hist, tree |-> rel, final |-> final,
+                                   rows |-> IF final THEN WantRows ELSE SrcRows, refused |-> Refused,
                                    fired |-> final])>>)
 =============================================================================
